@@ -143,6 +143,11 @@ fn level_lambda(sk: &Skeleton, level: usize) -> Cell {
         for n in NAMES {
             body.push(rd(level, 1, n));
         }
+        // a named let whose tag has the name of a variable that its init reads: the init is outside the
+        // tag's scope and denotes the variable
+        for n in NAMES {
+            body.push(call("rd", vec![quote(sym(&format!("N{}{}", level + 1, n))), list(vec![sym("let"), sym(n), list(vec![list(vec![sym("i"), sym(n)])]), sym("i")])]));
+        }
         body.push(call("list", NAMES.iter().map(|n| sym(n)).collect()));
     } else {
         let inner_name = format!("i{}", level + 2);
